@@ -196,3 +196,31 @@ Definition rfc8259_text (t : list byte) : Prop :=
   exists w1 s w2, stx_ok s = true /\ t = render_ws w1 ++ render s ++ render_ws w2.
 Definition rfc8259_denotes (t : list byte) (x : rv) : Prop :=
   exists w1 s w2, stx_ok s = true /\ t = render_ws w1 ++ render s ++ render_ws w2 /\ value s = x.
+
+(* ------------------------------------------------------------------ significant bytes *)
+(* What remains of a text when the insignificant parts are removed: whitespace between
+   tokens, ANSI colour sequences ESC [ ... m between tokens, and the choice between the
+   two spellings of the solidus inside strings (backslash-solidus is rewritten to a plain
+   solidus; every other byte of a string literal, including its other escapes, stays).
+   Two texts with the same significant bytes have the same tokens with the same spelling. *)
+Inductive lexst := LOut | LStr | LStrEsc | LEsc | LEscSeq.
+Definition is_ws_byte (c : byte) : bool := (c =? 32) || (c =? 9) || (c =? 10) || (c =? 13).
+Definition sig_step (st : lexst) (c : byte) : lexst * list byte :=
+  match st with
+  | LOut => if is_ws_byte c then (LOut, [])
+            else if c =? 27 then (LEsc, [])
+            else if c =? 34 then (LStr, [34])
+            else (LOut, [c])
+  | LStr => if c =? 34 then (LOut, [34]) else if c =? 92 then (LStrEsc, []) else (LStr, [c])
+  | LStrEsc => (LStr, if c =? 47 then [47] else [92; c])
+  | LEsc => if c =? 91 then (LEscSeq, []) else (LOut, [27; c])        (* not a colour sequence: kept *)
+  | LEscSeq => if c =? 109 then (LOut, [])
+               else if digit c || (c =? 59) then (LEscSeq, [])
+               else (LOut, [27; 91; c])                                (* not a colour sequence: kept *)
+  end.
+Fixpoint sig_run (st : lexst) (t : list byte) : lexst * list byte :=
+  match t with
+  | [] => (st, [])
+  | c :: r => let '(st1, o1) := sig_step st c in let '(st2, o2) := sig_run st1 r in (st2, o1 ++ o2)
+  end.
+Definition significant (t : list byte) : list byte := snd (sig_run LOut t).
